@@ -533,6 +533,14 @@ class Exec:
                     if isinstance(o, SymObj) and o.model is not None and hasattr(o.model, "setitem"):
                         r = o.model.setitem(self, o, key, v, q2, node)
                         res += r if r is not None else [("fall", None, q2)]
+                    elif (isinstance(o, DictLit) or (isinstance(o, Empty) and o.kind == "dict")) and isinstance(tgt.value, ast.Name) \
+                            and isinstance(tgt.slice, ast.Constant) and isinstance(tgt.slice.value, str) and q2.env.get(tgt.value.id) is o:
+                        # members["name"] = value on a dict literal held by a local: the local is re-bound to the extended literal
+                        # (the literal is not aliased anywhere else as long as it is only ever used through this local - checked at the use)
+                        items = dict(o.items) if isinstance(o, DictLit) else {}
+                        items[tgt.slice.value] = v
+                        q2.env = dict(q2.env); q2.env[tgt.value.id] = DictLit(items)
+                        res.append(("fall", None, q2))
                     else:
                         self.unsupported(node, f"subscript store on {o!r}")
             return res
@@ -1003,7 +1011,18 @@ class Exec:
         self.unsupported(e, "list comprehension")
 
     def e_GeneratorExp(self, e, p):
-        return [(Opaque("genexp"), p)]
+        g = Opaque("genexp")
+        g.node = e
+        g.source = None
+        first = e.generators[0].iter
+        # Python evaluates the outermost iterable when the generator object is created; if that value is a symbolic object whose model
+        # wants to know (a one-shot iterable), tell it
+        if isinstance(first, ast.Name) and first.id in p.env:
+            src = p.env[first.id]
+            g.source = src
+            if isinstance(src, SymObj) and src.model is not None and hasattr(src.model, "iterated"):
+                src.model.iterated(self, src, p, e)
+        return [(g, p)]
 
     def e_Starred(self, e, p):
         self.unsupported(e, "starred")
@@ -1045,6 +1064,14 @@ class Exec:
                 return getattr(recv.model, "call_" + e.func.attr)(self, recv, args, kwargs, q, e)
         if h is not None:
             return h(self, recv, args, kwargs, q, e)
+        if (isinstance(recv, DictLit) or (isinstance(recv, Empty) and recv.kind == "dict")) and isinstance(e.func, ast.Attribute) \
+                and e.func.attr == "update" and isinstance(e.func.value, ast.Name) and q.env.get(e.func.value.id) is recv \
+                and len(args) == 1 and isinstance(args[0], DictLit) and not kwargs:
+            # members.update({...}) on a dict literal held by a local: the local is re-bound to the merged literal
+            items = dict(recv.items) if isinstance(recv, DictLit) else {}
+            items.update(args[0].items)
+            q.env = dict(q.env); q.env[e.func.value.id] = DictLit(items)
+            return [(NONE, q)]
         # 2. builtins
         b = getattr(self, "b_" + fname.replace(".", "_"), None)
         if b is not None:
